@@ -89,6 +89,21 @@
 #include "asn1.h"
 #include "snmp_api_error.h"
 
+/*
+ * Whether the identifier octet and the complete length field of the object
+ * at "data" lie within the "datalength" bytes the caller may look at.
+ * Must be checked before asn_parse_length() dereferences them.
+ */
+static int
+asn_header_fits(const u_char * data, int datalength)
+{
+    if (datalength < 2)
+        return 0;
+    if (data[1] & ASN_LONG_LEN)
+        return datalength >= 2 + (int) (data[1] & ~ASN_LONG_LEN);
+    return 1;
+}
+
 u_char *
 asn_build_header(u_char * data, /* IN - ptr to start of object */
                  int *datalength,       /* IN/OUT - # of valid bytes */
@@ -128,6 +143,10 @@ asn_parse_int(u_char * data, int *datalength,
 
     /* Room to store int? */
     if (intsize != sizeof(int)) {
+        snmp_set_api_error(SNMPERR_ASN_DECODE);
+        return (NULL);
+    }
+    if (!asn_header_fits(data, *datalength)) {
         snmp_set_api_error(SNMPERR_ASN_DECODE);
         return (NULL);
     }
@@ -193,6 +212,10 @@ asn_parse_unsigned_int(u_char * data, int *datalength,
 
     /* Room to store int? */
     if (intsize != sizeof(int)) {
+        snmp_set_api_error(SNMPERR_ASN_DECODE);
+        return (NULL);
+    }
+    if (!asn_header_fits(data, *datalength)) {
         snmp_set_api_error(SNMPERR_ASN_DECODE);
         return (NULL);
     }
@@ -400,6 +423,10 @@ asn_parse_string(u_char * data, int *datalength,
     u_char *bufp = data;
     u_int asn_length;
 
+    if (!asn_header_fits(data, *datalength)) {
+        snmp_set_api_error(SNMPERR_ASN_DECODE);
+        return (NULL);
+    }
     *type = *bufp++;
     bufp = asn_parse_length(bufp, &asn_length);
     if (bufp == NULL)
@@ -476,6 +503,10 @@ asn_parse_header(u_char * data, int *datalength, u_char * type)
     int header_len;
     u_int asn_length;
 
+    if (!asn_header_fits(data, *datalength)) {
+        snmp_set_api_error(SNMPERR_ASN_DECODE);
+        return (NULL);
+    }
     /* this only works on data types < 30, i.e. no extension octets */
     if (IS_EXTENSION_ID(*bufp)) {
         snmp_set_api_error(SNMPERR_ASN_DECODE);
@@ -655,6 +686,10 @@ asn_parse_objid(u_char * data, int *datalength,
     int length;
     u_int asn_length;
 
+    if (!asn_header_fits(data, *datalength)) {
+        snmp_set_api_error(SNMPERR_ASN_DECODE);
+        return (NULL);
+    }
     *type = *bufp++;
     bufp = asn_parse_length(bufp, &asn_length);
     if (bufp == NULL)
